@@ -588,7 +588,43 @@ func (p *Partition) MeasurementSeriesIDIterator(name []byte) (tsdb.SeriesIDItera
 	if err != nil {
 		return nil, err
 	}
-	return newFileSetSeriesIDIterator(fs, fs.MeasurementSeriesIDIterator(name)), nil
+	return newFileSetSeriesIDIterator(fs, p.filterDroppedSeries(fs.MeasurementSeriesIDIterator(name))), nil
+}
+
+// filterDroppedSeries removes the series that have been dropped from this
+// partition from itr. The files of a partition only ever add series ids to the
+// lists kept per measurement and per tag value; which of them are still alive is
+// recorded in the partition's series id set (the files' series and tombstone sets).
+// Without this a series that was deleted from this shard, but still exists in
+// another shard of the database, is still reported by this shard.
+func (p *Partition) filterDroppedSeries(itr tsdb.SeriesIDIterator) tsdb.SeriesIDIterator {
+	if itr == nil {
+		return nil
+	}
+	if ssitr, ok := itr.(tsdb.SeriesIDSetIterator); ok {
+		if filtered := tsdb.NewSeriesIDSetIteratorWithCloser(ssitr.SeriesIDSet().And(p.seriesIDSet), itr); filtered != nil {
+			return filtered
+		}
+		return itr
+	}
+	return &liveSeriesIDIterator{itr: itr, live: p.seriesIDSet}
+}
+
+// liveSeriesIDIterator skips series ids which are not in the live set.
+type liveSeriesIDIterator struct {
+	itr  tsdb.SeriesIDIterator
+	live *tsdb.SeriesIDSet
+}
+
+func (itr *liveSeriesIDIterator) Close() error { return itr.itr.Close() }
+
+func (itr *liveSeriesIDIterator) Next() (tsdb.SeriesIDElem, error) {
+	for {
+		e, err := itr.itr.Next()
+		if err != nil || e.SeriesID == 0 || itr.live.Contains(e.SeriesID) {
+			return e, err
+		}
+	}
 }
 
 // DropMeasurement deletes a measurement from the index. DropMeasurement does
@@ -813,7 +849,7 @@ func (p *Partition) TagKeySeriesIDIterator(name, key []byte) (tsdb.SeriesIDItera
 		fs.Release()
 		return nil, nil
 	}
-	return newFileSetSeriesIDIterator(fs, itr), nil
+	return newFileSetSeriesIDIterator(fs, p.filterDroppedSeries(itr)), nil
 }
 
 // TagValueSeriesIDIterator returns a series iterator for a single key value.
@@ -831,7 +867,7 @@ func (p *Partition) TagValueSeriesIDIterator(name, key, value []byte) (tsdb.Seri
 		fs.Release()
 		return nil, nil
 	}
-	return newFileSetSeriesIDIterator(fs, itr), nil
+	return newFileSetSeriesIDIterator(fs, p.filterDroppedSeries(itr)), nil
 }
 
 // MeasurementTagKeysByExpr extracts the tag keys wanted by the expression.
